@@ -26,9 +26,19 @@
    LastVerdictWins; TLC emits the list shapes (length <= 3 x position of the connection's own protocol); the driver
    realises them with every registered protocol as partner at the detection function (every prefix), through the
    proxy.OnData-shaped read filter (first read of 1..26 bytes, byte-by-byte) and on in-process MOSN listeners
-   configured with downstream_protocol "a,b[,c]"."""
+   configured with downstream_protocol "a,b[,c]".
+   Burst dimension (Framing.tla `handled` / Burst / LoopUntilDry): Dispatch is called ONCE per read that brought bytes,
+   so its loop has to go round until no complete frame is left, however many frames that read made available; the
+   number of frames that become complete with one read is a dimension of the cases. The model rejects the named
+   defect BoundedFramesPerDispatch (bound 2, burst 3); TLC enumerates the chunkings of 3 (thorough: 4) small model
+   frames (Framing_burst.cfg) and the driver realises each with one model frame = a run of 100 (and 367 / 275) real
+   messages of every protocol variant: 300 .. 1100 messages, delivered in one read (listener read buffer sized to
+   fit), in two / three reads cut inside a message, and with the default 128-byte read buffer that grows while the
+   stream passes; reference = the same stream delivered 1..8 messages per read. The driver records how every chunk
+   was really cut into Read calls and the check refuses to conclude unless a single real read completed >= 250
+   messages for every protocol. HTTP/1 additionally end to end (a few hundred pipelined requests in one write)."""
 import concurrent.futures as cf
-import json, os, random, re
+import bisect, json, os, random, re
 import vlib
 
 LEVEL = "model_checking"
@@ -96,10 +106,15 @@ def run(ctx):
                      cases_to=traw, timeout=900)
     ctx.add_tlc(r)
     ctx.add_tlc(vlib.run_tlc(ctx, "wire", "Framing", "Framing_timeout_peek.cfg" if q else "Framing_timeout_peek_thorough.cfg", timeout=900))
+    # the Dispatch loop under bursts: chunkings of a few small model frames, to be scaled to runs of real messages
+    braw = os.path.join(ctx.tmp, "zones_burst_raw.jsonl")
+    r = vlib.run_tlc(ctx, "wire", "Framing", "Framing_burst.cfg" if q else "Framing_burst_thorough.cfg", workers=1,
+                     cases_to=braw, timeout=900)
+    ctx.add_tlc(r)
     # every named defect must be rejected (non-vacuity); these runs are independent of everything else
     defect_cfgs = [("Framing", "Framing_defect_%s.cfg" % d) for d in
                    ("OffByOne", "DrainHeader", "ConsumePartial", "PrefaceFlagEarly", "ShortCountAfterTimeout",
-                    "ShrinkDropsBufferedBytes")] + \
+                    "ShrinkDropsBufferedBytes", "BoundedFramesPerDispatch")] + \
                   [("Detect", "Detect_defect.cfg"), ("Detect", "Detect_defect_LastVerdictWins.cfg")]
     dpool = cf.ThreadPoolExecutor(max_workers=4)
     djobs = [(c, dpool.submit(vlib.run_tlc, ctx, "wire", m, c, 2, 600, None, None, False, None, None, None, False, False))
@@ -142,6 +157,28 @@ def run(ctx):
             fh.write(ln + "\n")
     ncases = len(small) + len(big) + len(plines) + len(tlines)
 
+    # burst class: the chunkings of the longest model stream; one model frame = a run of `scale` real messages
+    bcases = [json.loads(ln) for ln in sorted(set(open(braw).read().splitlines()))]
+    nmax = max(len(c["frames"]) for c in bcases)
+    bcases = [c for c in bcases if len(c["frames"]) == nmax]
+    few = [c for c in bcases if len(c["cuts"]) <= 2]                 # one read; two reads, every position of the cut
+    three = [c for c in bcases if len(c["cuts"]) == 3]
+    if len(three) > (3 if q else 24):
+        three = rng.sample(three, 3 if q else 24)
+        sampled = True
+    borders = set(sum(c["frames"][:k + 1]) for c in bcases[:1] for k in range(nmax))
+    inside = [c for c in few if len(c["cuts"]) == 2 and c["cuts"][0] not in borders]
+    huge = [c for c in few if len(c["cuts"]) == 1] + (rng.sample(inside, min(len(inside), 2)) if q else inside)
+    hscale = -(-1100 // nmax)                                         # beyond any plausible per-call bound
+    bursts = os.path.join(ctx.tmp, "bursts.jsonl")
+    with open(bursts, "w") as fh:
+        for c in few + three:
+            fh.write(json.dumps(dict(c, scale=100)) + "\n")
+        for c in huge:
+            fh.write(json.dumps(dict(c, scale=hscale)) + "\n")
+    nbursts = len(few) + len(three) + len(huge)
+    bytewise = set(rng.sample(PROTOS, 2)) if q else set(PROTOS)       # a hundred messages byte by byte: a sample
+
     # ---------- 2. real code: record (one driver process per protocol, in parallel)
     binary = vlib.go_build("c07")
     nrand = "12" if q else "120"
@@ -150,9 +187,11 @@ def run(ctx):
         for p in PROTOS:
             jobs.append(("framing", ex.submit(drive, ctx, binary, "zones", p, ["-cases", zones], "z")))
             jobs.append(("framing", ex.submit(drive, ctx, binary, "native", p, ["-random", nrand, "-lists", lists], "n")))
+            jobs.append(("framing", ex.submit(drive, ctx, binary, "burst", p,
+                                              ["-bursts", bursts] + (["-bytewise"] if p in bytewise else []), "b")))
         jobs.append(("detect", ex.submit(drive, ctx, binary, "detect", ",".join(PROTOS), ["-lists", lists], "d")))
         # end to end: in-process MOSN (Auto listener, real proxy filter, real sockets), HTTP/1 upstream sees the requests
-        jobs.append(("framing", ex.submit(drive, ctx, binary, "e2e", "Http1", ["-cases", zones, "-random", nrand], "e")))
+        jobs.append(("framing", ex.submit(drive, ctx, binary, "e2e", "Http1", ["-cases", zones, "-random", nrand, "-bursts", bursts], "e")))
         parts = {"framing": [], "detect": []}
         for kind, j in jobs:
             parts[kind] += j.result()
@@ -164,6 +203,7 @@ def run(ctx):
 
     # ---------- 3. TLC decides
     nruns = nfeeds = nontrivial = 0
+    realised = {}     # protocol -> most messages a single real Read call completed in a burst run
     for kind, mod in (("framing", "FramingTrace"), ("detect", "DetectTrace")):
         trace = os.path.join(ctx.tmp, kind + ".ndjson")
         with open(trace, "w") as fo:
@@ -180,14 +220,23 @@ def run(ctx):
         if not v["accepted"] and not mm and v["matched"] is None:
             raise vlib.Inconclusive("trace validation of %s did not complete:\n%s" % (mod, v["text"][-1500:]))
         run_at, cur, chunks = {}, None, 0
+        pos = 0
         for i, e in enumerate(evs, 1):
             if e["ev"] in ("run", "drun"):
                 cur = e
+                pos = 0
                 nruns += 1
                 if e["ev"] == "run" and len(e.get("cuts", [])) > 1:
                     nontrivial += 1
             elif e["ev"] in ("feed", "pause", "select", "match"):
                 nfeeds += 1
+                if e["ev"] == "feed" and cur.get("cls") == "burst" and cur.get("transport") == "plain":
+                    ends = cur["ends"]
+                    for rd in e.get("reads", []):
+                        a = bisect.bisect_right(ends, pos)
+                        pos += rd
+                        b = bisect.bisect_right(ends, pos)
+                        realised[cur["proto"]] = max(realised.get(cur["proto"], 0), b - a)
             run_at[i] = cur
         ctx.sample({"part": kind, "trace_head": evs[:4]})
 
@@ -210,6 +259,11 @@ def run(ctx):
             vlib.report_failure(ctx, sig_of(line, "trace-rejected:" + evs[line - 1]["ev"]),
                                 dict(line=line, event=evs[line - 1], run=run_at.get(line), context=evs[max(0, line - 4):line]))
 
+    # the burst class must have been realised: a single real read that completed several hundred messages
+    ctx.cov["burst_messages_completed_by_one_read"] = realised
+    for p in PROTOS:
+        if realised.get(p, 0) < 250:
+            raise vlib.Inconclusive("burst class not realised for %s: at most %d messages became complete in one read" % (p, realised.get(p, 0)))
     ctx.cov["traces_validated_against_impl"] = nruns
     ctx.cov["evaluations"] = nfeeds
     ctx.cov["distinct_nontrivial"] = nontrivial
@@ -223,8 +277,13 @@ def run(ctx):
                        "first byte / middle / last-1 / end of the 24-byte connection preface x the frame zones; "
                        "an evaluation = one chunk (feed) or one matcher/selection answer judged by TLC; detection: every prefix up "
                        "to 64 bytes, first-frame end -1/0 and full stream, 3 valid streams per variant; e2e: the zone chunkings and random "
-                       "chunkings over TCP into an in-process MOSN, upstream arrivals judged" % (
-                           ncases, ", 3-frame cases sub-sampled by VERIF_SEED" if sampled else "", nrand))
+                       "chunkings over TCP into an in-process MOSN, upstream arrivals judged; burst class: %d chunkings of %d model "
+                       "frames (all with <= 2 reads, a seeded sample with 3) x {one model frame = 100 messages, = %d messages "
+                       "for the one-read case and cuts inside a message} x {fixed + fitting read buffer, auto + fitting, auto + "
+                       "default growing buffer} per protocol variant, reference = 1..8 messages per read; 100 messages byte by "
+                       "byte for %s; e2e: the <= 2-read chunkings of 300 pipelined HTTP/1 requests" % (
+                           ncases, ", 3-frame cases sub-sampled by VERIF_SEED" if sampled else "", nrand,
+                           nbursts, nmax, hscale, ",".join(sorted(bytewise))))
     ctx.assumptions += ["streams are concatenations of valid request frames on which exactly one registered matcher finally succeeds",
                         "HTTP/2 messages are sent sequentially (no interleaving of streams); tars packets < 256 bytes",
                         "segmentation is imposed below pkg/network (net.Conn.Read returns exactly the chunks); the kernel/TLS layers are out of scope",
